@@ -426,8 +426,14 @@ func validatorCase0(h *hctx, n, localIdx, pubIdx int, msg []byte, nonce uint64, 
 			s[r.Intn(len(s))] ^= 1 << uint(r.Intn(8))
 			return true
 		}},
-		{"shard-trunc", func(u *propeller.Unit, _ *peer.ID, _ int) bool { u.ShardData[0] = u.ShardData[0][:len(u.ShardData[0])-1]; return true }},
-		{"shard-extend", func(u *propeller.Unit, _ *peer.ID, _ int) bool { u.ShardData[0] = append(u.ShardData[0], 0); return true }},
+		{"shard-trunc", func(u *propeller.Unit, _ *peer.ID, _ int) bool {
+			u.ShardData[0] = u.ShardData[0][:len(u.ShardData[0])-1]
+			return true
+		}},
+		{"shard-extend", func(u *propeller.Unit, _ *peer.ID, _ int) bool {
+			u.ShardData[0] = append(u.ShardData[0], 0)
+			return true
+		}},
 		{"shard-empty", func(u *propeller.Unit, _ *peer.ID, _ int) bool { u.ShardData[0] = propeller.Shard{}; return true }},
 		{"shard-of-other-index", func(u *propeller.Unit, _ *peer.ID, i int) bool {
 			if total < 2 {
@@ -477,7 +483,10 @@ func validatorCase0(h *hctx, n, localIdx, pubIdx int, msg []byte, nonce uint64, 
 			return true
 		}},
 		{"sig-empty", func(u *propeller.Unit, _ *peer.ID, _ int) bool { u.Signature = nil; return true }},
-		{"sig-trunc", func(u *propeller.Unit, _ *peer.ID, _ int) bool { u.Signature = u.Signature[:len(u.Signature)-1]; return true }},
+		{"sig-trunc", func(u *propeller.Unit, _ *peer.ID, _ int) bool {
+			u.Signature = u.Signature[:len(u.Signature)-1]
+			return true
+		}},
 		{"sig-of-other-message", func(u *propeller.Unit, _ *peer.ID, _ int) bool {
 			u.Signature = append(propeller.Signature{}, other[0].Signature...)
 			return true
